@@ -512,3 +512,6 @@ Qed.
 Lemma step_ok_with_heap s h' :
   Inv_heap h' /\ kinds_kept (f_heap s) h' -> step_ok s (with_heap s h').
 Proof. intros [H1 H2]. split; auto. Qed.
+
+(* the branch of a call that returns the state it was given *)
+Ltac stay := cbn [fst snd]; apply step_ok_refl; assumption.
